@@ -225,7 +225,7 @@ def _eq_aspect(oa, ob):
         return "residues"
     if [(c[0], c[2]) for c in oa["chains"]] != [(c[0], c[2]) for c in ob["chains"]]:
         return "chains"
-    if sorted(TM._canon(b[:4]) for b in oa["bonds"]) != sorted(TM._canon(b[:4]) for b in ob["bonds"]):
+    if sorted((TM._canon(b[:4]) for b in oa["bonds"]), key=repr) != sorted((TM._canon(b[:4]) for b in ob["bonds"]), key=repr):
         return "bonds"
     return "none-visible"
 
@@ -468,10 +468,17 @@ def _job(args):
         with Watchdog(120.0):
             r = expand(init, hist, scratch, seed)
     except Watchdog.Timeout:
-        return {"children": [], "viol": [("expand|horizon", "state init=%s history=%s did not finish in 120 s" % (init, hist),
-                                          {"init": init, "history": hist, "events": [], "sig": "expand|horizon"})],
-                "counts": {"expand|horizon": 1}, "stat": {}, "outcomes": set(), "excluded_reasons": {}, "n_atoms": 0}
+        return _failed(init, hist, "expand|horizon", "did not finish in 120 s")
+    except Exception as e:  # the check itself could not digest what the implementation produced: fail loudly
+        import traceback
+        return _failed(init, hist, "expand|check-error|%s" % type(e).__name__, traceback.format_exc()[-1500:])
     return r
+
+
+def _failed(init, hist, sig, text):
+    return {"children": [], "viol": [(sig, "state init=%s history=%s: %s" % (init, json.dumps(hist), text),
+                                      {"init": init, "history": hist, "events": [], "sig": sig})],
+            "counts": {sig: 1}, "stat": {}, "outcomes": set(), "excluded_reasons": {}, "n_atoms": 0}
 
 
 def run(ctx):
